@@ -65,10 +65,23 @@ def oracle(case, out):
     return viol
 
 
-def run(ctx):
-    run_hist(ctx, PROFILE, oracle, 1500, 30000)
+import vlib.wrt_common as wrt
 
-TECHNIQUE = "Lean 4 invariant proofs over op lists + differential correspondence with DataReaderEntity"
-LEVEL_TEXT = 'Kernel-checked Lean theorems for all states/op lists of the reader-history model: a rejected sample leaves the store untouched, raises sample_rejected total_count by exactly one with the reason of the first limit hit (C19_rejected_not_stored_and_reported), the status changes only on rejection, and the max_samples / max_samples_per_instance bounds are invariants of every op list (C19_reader_limits_partial; max_instances is checked by the oracle, the writer-side half of the property is not modelled yet). Tied to DataReaderEntity by per-op differential runs with boundary-biased limits; oracle recounts the limits on every dump.'
+LEAN_MODULES = ["DustVerif.Props.C19", "DustVerif.Props.C19Writer"]
+BINS = ["hist", "wrt", "dsim"]
+
+
+def run(ctx):
+    run_hist(ctx, PROFILE, oracle, 1500, 30000)                       # reader half
+    # writer half (engine wrt on the simulator): a write that would exceed a limit answers OutOfResources and stores nothing
+    impl = wrt.differential(ctx, wrt.writer_cases(ctx.rng, ctx.tier), wrt.writer_nontrivial, wrt.writer_oracle)
+    for io in impl:
+        for o in io:
+            if o in ("err:OutOfResources",):
+                ctx.count("writer:refused")
+    ctx.count("writer:cases", len(impl))
+
+TECHNIQUE = "Lean 4 invariant proofs over op lists + differential correspondence with DataReaderEntity (reader) and DataWriterAsync in the simulator (writer)"
+LEVEL_TEXT = 'Kernel-checked Lean theorems for all states/op lists of the reader-history model: a rejected sample leaves the store untouched, raises sample_rejected total_count by exactly one with the reason of the first limit hit (C19_rejected_not_stored_and_reported), the status changes only on rejection, and the max_samples / max_samples_per_instance bounds are invariants of every op list (C19_reader_limits_partial; max_instances is checked by the oracle). WRITER half (Props/C19Writer.lean, engine wrt): C19_writer_rejects_iff / C19_writer_refuses / C19_writer_accepts / C19_writer_limits - a write is refused with OutOfResources exactly when a limit would be exceeded, a refused write changes nothing (defect D25, a refused write registered its instance, was found and repaired), an accepted one keeps all three limits; tied to the real writer through the public API in the simulator. Tied to DataReaderEntity by per-op differential runs with boundary-biased limits; oracle recounts the limits on every dump.'
 LEVEL_NOTE = 'Trusted: Lean kernel (axioms audited: propext, Classical.choice, Quot.sound at most); the hand-written model Model/ReaderHist.lean of data_reader_entity.rs / user_defined_data_reader.rs (handles as Nat, times as total ns, Vec as List); the hist harness that drives the real DataReaderEntity<()> / UserDefinedDataReader through the cfg(dust_dds_verif) re-export and prints canonical lines; the Python oracle. The differential run validates the model on sampled op sequences only; the theorems are about the model.'
 DESIGN_REF = 'DESIGN.md section 5 C19'
